@@ -638,16 +638,37 @@ def merge_coverage(cov, extra, label):
     return cov
 
 
+def system_part(ck):
+    """SYSTEM LAYER: recorded whole runs validated by TLC against PSRunTrace.tla (clauses IF_Zero, RW_FirstZero,
+    RW_Monotone, RW_Bounded, RW_AdvanceESS, RW_Limit, RW_SameBeta) + the bounded PSRun model (HistBetaMonotone,
+    BetaBounded, BetaMonotoneStep)."""
+    from vlib import sysrun
+
+    cov = sysrun.model_part(ck, "C05", variants=[], tier=ck.tier,
+                            configs=[dict(clustering="TRUE", every=2, metric="ess", cap=0), dict(clustering="FALSE", every=1, metric="vv", cap=0)])
+    factors = {"metric": [{}, {"volume_variation": 0.2}, {"volume_variation": 1.0}, {"volume_variation": 5.0}], "ess_ratio": [1.0, 2.0, 3.5],
+               "n_particles": [8, 16], "sample": ["tpcn", "rwm"], "clustering": [True, False], "target": ["gauss", "bimodal", "edge"]}
+    jobs = sysrun.product_jobs(factors, {}, ck.seed + 5, limit=40 if ck.tier == "quick" else 288, n_total=40)
+
+    def nontrivial(t):
+        adv = sum(1 for a, b in zip([e for e in t["events"] if e["ev"] == "Reweight"][:-1], [e for e in t["events"] if e["ev"] == "Reweight"][1:]) if b["beta"] > a["beta"])
+        return (t["meta"]["label"], t["meta"]["seed"]) if adv >= 2 else None
+
+    sc, traces = sysrun.system_part(ck, "C05", jobs, nontrivial)
+    cov.update(sc)
+    cov.update(sysrun.selftest(traces[0]))
+    cov["traces_validated_against_impl"] = sc["system_runs"]
+    cov["evaluations"] = sc["system_event_counts"].get("Reweight", 0)
+    cov["distinct_nontrivial"] = sc["system_nontrivial"]
+    return cov
+
+
 def main():
     ck = core.Check("C05", "model_checking")
     if ck.args.replay:
         replay(ck, ck.args.replay)
     cov = component_part(ck)
-    # ---------------------------------------------------------------------------------------------
-    # SYSTEM LAYER goes here (recorded whole-run traces validated against PSRun.tla / PSRunTrace.tla):
-    #     merge_coverage(cov, system_part(ck), "system")
-    # `system_part(ck) -> dict` reports violations through ck.violation(...) like component_part does.
-    # ---------------------------------------------------------------------------------------------
+    merge_coverage(cov, system_part(ck), "system")
     ck.assumptions += [
         "binary64 arithmetic: sums and halves of dyadic temperatures k/2^F (F <= 18) are exact",
         "the metric is a deterministic function of (history, beta): re-evaluation at a temperature returns the same value (the memo of the specification)",
